@@ -348,6 +348,31 @@ class _Col:
 fu.ensures("one_per_condition", lambda a, ret, st: [("parent", same_obj(G(ret, "screen"), a.screen))] +
            unique_rows_mask(G(ret, "selection_vector"), _cond_cols(a.screen), nrows(a.screen)))
 
+# ---- the same filter applied to a VIEW (score_chunk conditions each candidate on the batch this way): the result selects, among the rows of the
+# view, exactly one row per distinct (sample id, treatment ids) tuple; it is a new view of the same parent and the operand is untouched
+fv = contract(FU + "@view", params=[("parent", T_scr), ("screen", TObj(SUBSET, fields={"screen": TRef("parent"), "selection_vector": TArr(Bool)}))])
+fv.variants = [("view_arity%d" % k, [("parent", T_screen(k)), ("screen", TObj(SUBSET, fields={"screen": TRef("parent"), "selection_vector": TArr(Bool)}))]) for k in (1, 2, 3)]
+fv.requires(lambda a: screen_shape_wf(a.parent) + [a.screen.selection_vector.shape[0] == nrows(a.parent)])
+
+
+def _fv_post(a, ret, st):
+    n = nrows(a.parent)
+    s, res = a.old.screen.selection_vector, ret.fields["selection_vector"]
+    cols = _cond_cols(a.parent)
+    r, r2 = z3.Int("r!fv"), z3.Int("r2!fv")
+    same = lambda x, y: z3.And(*[z3.Select(c.data, x) == z3.Select(c.data, y) for c in cols])  # noqa
+    inr = lambda t: z3.And(t >= 0, t < n)  # noqa
+    return [("same_parent", bool_(ret.fields["screen"] is a.parent)),
+            ("length", res.shape[0] == n),
+            ("inside_the_view", z3.ForAll([r], z3.Implies(z3.And(inr(r), z3.Select(res.data, r)), z3.Select(s.data, r)), patterns=[z3.Select(res.data, r)])),
+            ("representatives_distinct", z3.ForAll([r, r2], z3.Implies(z3.And(inr(r), inr(r2), r < r2, z3.Select(res.data, r), z3.Select(res.data, r2)), z3.Not(same(r, r2))))),
+            ("every_condition_of_the_view_represented", Forall([("r!fw", Int)], lambda rr: z3.Implies(z3.And(inr(rr), z3.Select(s.data, rr)), z3.Exists([r2], z3.And(
+                inr(r2), z3.Select(res.data, r2), same(rr, r2)))), patterns=lambda rr: [z3.Select(s.data, rr)])),
+            ("operand_untouched", same_array(a.screen.selection_vector, a.old.screen.selection_vector))]
+
+
+fv.ensures("one_per_condition_of_the_view", _fv_post)
+
 # (contracts defined after the first loop above: same policy)
 for _q, _c in list(_R.items()):
     if _q.startswith("batchie.data.") and _c.apply is None and not _c.trusted:
